@@ -600,7 +600,8 @@ class HistFamily(Family):
 PROP = Property(
     id="C10",
     title="Statistics and histograms equal their definition regardless of chunking or views",
-    theorems=[],
+    theorems=["C10.stat_bbox_eq", "C10.stat_bbox_shape", "C10.hist_total", "C10.hist_bin", "C10.hist_bin_top",
+              "C10.hist_perbin_partial"],
     families=[StatFamily(), HistFamily()],
     trusted_base=["numpy reducers (nanmin/nanmax/nansum/nanmean/nanmedian/nanpercentile and the plain ones), "
                   "fast_histogram.histogram1d and IEEE double arithmetic are assumed to agree with exact "
